@@ -1,8 +1,9 @@
 #!/bin/bash
-# tools/sweep.sh "<props>" "<seeds>" <tier>  — runs checks on the clean tree, one line per run
+# tools/sweep.sh "<props>" "<seeds>" <tier>  — runs checks on the clean tree, one line per run (rc = the check's exit code)
 cd "$(dirname "$0")/.."
 ( cd lean && lake build >/dev/null 2>&1 )
 for p in $1; do for s in $2; do
-  out=$(VERIF_SEED=$s ./check $p --tier $3 2>/dev/null | grep -v "^KNOWN-FINDING" | tail -2 | tr '\n' ' ')
-  echo "rc=$? $out"
+  out=$(VERIF_SEED=$s ./check $p --tier $3 2>/dev/null; echo "RC=$?")
+  rc=$(echo "$out" | grep -o "RC=[0-9]*$" | tail -1)
+  echo "$rc $(echo "$out" | grep -v "^KNOWN-FINDING\|^RC=" | tail -2 | tr '\n' ' ')"
 done; done
